@@ -415,9 +415,14 @@ def subscript(interp, base, idx):
             # unknown key: might be any of the entries or missing
             n = interp.choose(len(base.keys) + 1)
             if n == len(base.keys):
-                interp.assumptions.append(
-                    (T('haskey', interp.termify_ref(base),
-                       interp.termify(idx)), False))
+                if all(isinstance(k, K) for k in base.keys):
+                    interp.assumptions.append(
+                        (T('cmp', 'in', interp.termify(idx),
+                           K(tuple(k.v for k in base.keys))), False))
+                else:
+                    interp.assumptions.append(
+                        (T('haskey', interp.termify_ref(base),
+                           interp.termify(idx)), False))
                 raise AbsRaise(T('exc', 'KeyError', interp.termify(idx)))
             interp.assumptions.append(
                 (T('cmp', '==', interp.termify(idx), base.keys[n]), True))
@@ -727,6 +732,10 @@ def call_external(interp, f, args, kwargs):
         return interp.opaque_call(f.name, f, args, kwargs)
     if isinstance(f, T):
         if f.op == 'attr' and len(f.args) == 2:
+            if interp.on_method is not None:
+                r = interp.on_method(f.args[0], f.args[1], args, kwargs)
+                if r is not NotImplemented:
+                    return r
             return interp.opaque_call('.' + f.args[1], f,
                                       [f.args[0]] + list(args), kwargs)
         return interp.opaque_call(show(f), f, args, kwargs)
@@ -832,16 +841,17 @@ def method_term(interp, base, name, args, kwargs):
             interp.types[t] = 'list'
         elif name in ('count', 'find', 'index', 'rfind'):
             interp.types[t] = 'int'
-        may = interp.method_raises.get(name)
-        if may:
+        if name in interp.method_raises:
             interp.effect('mcall', name, tb, targs)
-            for i, exc in enumerate(may):
-                pass
-            c = interp.choose(len(may) + 1)
-            if c > 0:
-                interp.assumptions.append(
-                    (T('raises', t, may[c - 1]), True))
-                raise AbsRaise(T('exc', may[c - 1], t))
+            saved = interp.call_raises.get('.' + name)
+            interp.call_raises['.' + name] = interp.method_raises[name]
+            try:
+                interp.may_raise('.' + name, t)
+            finally:
+                if saved is None:
+                    interp.call_raises.pop('.' + name, None)
+                else:
+                    interp.call_raises['.' + name] = saved
         return t
     interp.effect('mcall', name, tb, targs)
     interp.fresh_n += 1
@@ -983,12 +993,7 @@ def b_str(interp, args, kwargs):
         return v
     t = T('call', 'str', *[interp.termify(a) for a in args])
     interp.types[t] = 'str'
-    may = interp.call_raises.get('str')
-    if may:
-        c = interp.choose(len(may) + 1)
-        if c > 0:
-            interp.assumptions.append((T('raises', t, may[c - 1]), True))
-            raise AbsRaise(T('exc', may[c - 1], t))
+    interp.may_raise('str', t)
     return t
 
 
@@ -1008,12 +1013,7 @@ def _num(name, conv, tag):
             return v
         t = T('call', name, *[interp.termify(a) for a in args])
         interp.types[t] = tag
-        may = interp.call_raises.get(name)
-        if may:
-            c = interp.choose(len(may) + 1)
-            if c > 0:
-                interp.assumptions.append((T('raises', t, may[c - 1]), True))
-                raise AbsRaise(T('exc', may[c - 1], t))
+        interp.may_raise(name, t)
         return t
     return f
 
